@@ -143,6 +143,9 @@ def rand_domain(g):
     if kind == "empty":
         return dict(ranges=[], elems=[])       # nothing to draw: a library error, like a missing domain
     if kind == "elems":
+        if rng.random() < 0.25:
+            # only elements that Python treats as false: still a domain with something to draw
+            return dict(ranges=[], elems=rng.choice([[0], [False], [""], [0, 0.0, ""], [0.0]]))
         return dict(ranges=[], elems=elems)
     if kind == "ints":
         return dict(ranges=[irange], elems=[])
